@@ -222,7 +222,7 @@ fn mutant_case(u: &mut Choices, sz: Size) -> CaseResult {
 // ------------------------------------------------------------------------------------------------
 // stage: parser-accepted but ill-typed programs x awkward documents
 
-const ILL_TYPED: [&str; 55] = [
+const ILL_TYPED: [&str; 59] = [
     "rule r { this[ a == 1 ] exists }",
     "rule r { a[0][ k == 1 ] exists }",
     "rule r { a.*[ k == 1 ][ k == 1 ] !empty }",
@@ -277,6 +277,10 @@ const ILL_TYPED: [&str; 55] = [
     "rule r { Resources.*.Properties.a == 12345 << >>\n a == 12345 << >> }",
     "rule r { Resources.*.Properties.a == 12345 << ; >>\n a == 12345 <<;>> }",
     "rule r { Resources.*.Properties.a == 12345 <<\n\n>>\n a == 12345 <<\n;\n;\n>> }",
+    "let e = a[ zz == 1 ]\nrule r { c[ keys in %e ] exists\n c[ keys == %e ] empty\n c[ keys not in %e ] exists }",
+    "let e = Resources.*[ Type == 'AWS::No::Such' ].Properties.a\nrule r { Resources[ keys in %e ] empty\n Resources[ keys != %e ] exists\n Resources.*[ keys == %e ] empty }",
+    "let e = items[*]\nlet u = nosuch.x\nrule r { c[ keys in %e ] exists\n c[ keys == %e ] exists\n c[ keys not in %e ] exists\n c[ keys == %u ] exists }",
+    "rule r { c[ keys in items ] exists\n c[ keys == nosuch ] exists\n c[ keys in a[ zz == 1 ] ] exists\n a[*][ keys == b ] exists }",
     "rule r { Resources.*.Properties { a == 12345 <<\t>> } }\nAWS::S3::Bucket { Properties.a == 12345 << >> }",
 ];
 
